@@ -28,7 +28,7 @@ class C22(Monitor):
                     sid = (s.args or {}).get('sid')
                     self.poison[s.ep].add(sid if (s.exc['where'].startswith('stream') and sid is not None) else 'conn')
             return
-        if s.snap['closed'] or len(s.units) != 1 or (not s.ok and s.trailing >= 9) or s.quirk:
+        if s.snap['closed'] or not s.exact or s.quirk:
             return
         f = s.units[0]
         if f.type != C.PUSH_PROMISE or f.block_frames is None or f.bad or f.hpack_error or f.headers is None:
